@@ -27,8 +27,9 @@ class TracesParser:
             DgbFuncQual.DBG_FUNC_ALL.value: self._feed_single_event,
             DgbFuncQual.DBG_FUNC_NONE.value: self._feed_single_event,
         }
-        self.last_data_newthread = None
-        self.last_data_exec = None
+        # The data record and its name string are emitted back to back by the same thread, keyed by that thread.
+        self.last_data_newthread = {}
+        self.last_data_exec = {}
         self.handlers = {}
         self.handlers.update(bsd_handlers)
         self.handlers.update(dyld_handlers)
